@@ -148,11 +148,10 @@ def observe(obj, fam):
     pv = canon(obj.ReadProperty('presentValue'), enum)
     if canon(obj.presentValue, enum) != pv:
         raise Violation("attribute-read-differs", got=canon(obj.presentValue, enum), want=pv)
-    pa = obj.ReadProperty('priorityArray')
     n = obj.ReadProperty('priorityArray', 0)
     if n != 16:
         raise Violation("array-length", got=n)
-    slots = [slot_view(pa[i], fam) for i in range(1, 17)]
+    slots = [slot_view(obj.ReadProperty('priorityArray', i), fam) for i in range(1, 17)]
     rd = obj.ReadProperty('relinquishDefault')
     return (pv, slots, canon(rd, enum))
 
@@ -384,8 +383,8 @@ def long_seq(d, cls, length, seeds):
 
 
 # ------------------------------------------------------------------ pa_element_write
-@meta(bounds="one earlier command (priority symbolic over 1..16, or each of a set; first value), then one WriteProperty aimed at "
-             "priorityArray[i], i symbolic over 1..16, carrying what do_WritePropertyRequest casts out for an "
+@meta(bounds="one earlier command (priority symbolic over 1..16, or each of p3; first value), then one "
+             "WriteProperty aimed at priorityArray[i], i symbolic over 1..16, carrying what do_WritePropertyRequest casts out for an "
              "array element: a PriorityValue holding the second value in the datatype's alternative (a NULL is "
              "cast out as the empty tuple: that is route pa of prio_ops); accepted as a command at priority i "
              "or refused without changing anything - both satisfy the statement",
@@ -473,6 +472,7 @@ def min_hold(d, cls, prio):
     want = min_on if new else min_off
     other = min_off if new else min_on
     ctx = dict(new_state=_name(new), min_on=min_on, min_off=min_off)
+    w.settle()                          # whatever is due at this very instant (a hold of 0 s may end here)
     at_once = observe(obj, BINARY)
     w.run()                             # until nothing is scheduled any more
     held_for = w.clock - start          # the only task there can be is the release of slot 6
@@ -495,8 +495,9 @@ MIN_PRIOS = {'m3': [None, 8, 3], 'm2': [None, 3], 'm4': [None, 8, 3, 7]}
 
 
 @meta(bounds="binary output / binary value; minimum on and off times symbolic, independently 0..10 s; initial "
-             "state symbolic; n rounds of (one command: priority each of the set - m3 = absent,8,3; m4 = "
-             "absent,8,3,7 - value active / inactive / relinquish; then the clock advances by a symbolic whole "
+             "state symbolic; n rounds of (one command: priority each of the set - m2 = absent,3; m3 = absent,8,3; "
+             "m4 = absent,8,3,7; the first command's priority / value may be fixed: the instance is then one "
+             "slice - value active / inactive / relinquish; then the clock advances by a symbolic whole "
              "number of seconds 0..12 through the real core.run); full comparison with the clause 19.2.3 "
              "reference after every command and after every advance; finally core.run until idle: the last "
              "release happens at exactly the instant the reference computes and slot 6 ends up empty",
@@ -529,14 +530,13 @@ def min_on_off(d, cls, n, prios, first=None):
         if err is not None:
             raise Violation("valid-write-refused", step=step, priority=priority, exc=type(err).__name__,
                             msg=str(err)[:80])
+        w.settle()                      # whatever is due at this very instant, no time passes
         compare(observe(obj, BINARY), expect_binary(ref), step, "command", at=ref.now, **ctx)
         dt = d.int(0, 12, 'dt')
         w.run(duration=dt)
         ref.advance(dt)
-        if w.clock != ref.now:
-            raise Violation("clock", got=w.clock, want=ref.now)
         compare(observe(obj, BINARY), expect_binary(ref), step, "advance", at=ref.now,
-                last_change=ref.changes[-1:] , **ctx)
+                last_change=ref.changes[-1:], **ctx)
     w.run()
     last = ref.run_out()
     no_errors(d, **ctx)
@@ -549,7 +549,7 @@ def min_on_off(d, cls, n, prios, first=None):
 # ------------------------------------------------------------------ instances
 P3 = ["p3", "01-", "pv"]
 PLANS = {
-    # every priority once, default construction of the array
+    # every priority once, on the array the constructor builds by default
     'wide1': [["wide", "012-", "pv"]],
     'wide1pa': [["wide", "01-", "pa"]],
     # one occupied slot (absent / 1 / 8 / 16), then any priority
@@ -559,9 +559,8 @@ PLANS = {
     # thorough
     'wide2': [["wide", "01-", "pv"], ["wide", "01-", "pv"]],
     'deep3x': [["p4", "012-", "pv"]] * 3 + [["hi", "0", "pv"]],
-    'deep4': [P3] * 4 + [["lo", "0", "pv"]],
-    'deep3pa': [["p3", "01-", "pa"], ["p3", "01-", "pv"], ["p3", "01-", "pa"], ["lo", "0", "pa"]],
-    'wide3': [["p4", "0", "pv"], ["wide", "1-", "pv"], ["wide", "0-", "pv"]],
+    'deep3y': [["p4", "01-", "pv"]] * 3 + [["hi", "0", "pv"]],
+    'deep2pa': [["p3", "01-", "pa"], ["p3", "01-", "pa"], ["lo", "0", "pa"]],
 }
 DATETIME = ['DateTimeValueCmdObject', 'DateTimePatternValueCmdObject']
 
@@ -570,7 +569,18 @@ def _groups(names, k):
     return [names[i:i + k] for i in range(0, len(names), k)]
 
 
+def _short(classes):
+    return "+".join(c.replace('CmdObject', '') for c in classes)
+
+
 def instances(tier):
+    """measured on the repaired tree (paths / CPU s per instance, one core):
+    quick     wide1 x4 classes 250-320 / 17-20; occ+wide x3 480-970 / 15-26; deep3 324-387 / 12-20;
+              long_seq 12 / 9; pa_element_write 48-144 / 2-5; min_hold 8 / 0.3; min_on_off 322-366 / 11-17;
+              whole tier about 10300 paths, 480 CPU s
+    thorough  deep3x 4096 / 120 (integer classes 1460 / 41); wide2 3600 / 97; deep4 slice 2187 / 62;
+              deep5 slice 1296 / 41; wide3 slice 1600 / 52; min_on_off n=3 slice 1989 / 88, n=2 m4 slice 574 / 23
+    """
     q = tier == "quick"
     out = []
     every = [c for c, _ in CLASSES]
@@ -581,52 +591,50 @@ def instances(tier):
         params = dict(cls=classes if len(classes) > 1 else classes[0], plan=plan)
         if not own_array:
             params['own_array'] = False
-        label = "%s,%s" % (tag or plan, "+".join(c.replace('CmdObject', '') for c in classes))
-        out.append(Inst(prio_ops, params, budget=budget, label=label))
+        out.append(Inst(prio_ops, params, budget=budget, label="%s,%s" % (tag or plan, _short(classes))))
 
     # the two DateTime classes always get instances of their own: while they cannot be
-    # constructed the search of an instance ends at the first violation
+    # constructed the search of an instance ends at that first violation
     if q:
         for g in _groups(plain, 4) + [DATETIME]:
-            ops(g, 'wide1', 90, own_array=False)
+            ops(g, 'wide1', 120, own_array=False)
         for g in _groups(rep, 3) + [DATETIME[:1]]:
-            ops(g, 'occ+wide', 90)
+            ops(g, 'occ+wide', 120)
         for c in rep + DATETIME[:1]:
-            ops([c], 'deep3', 90)
+            ops([c], 'deep3', 120)
         ops(['AnalogValueCmdObject', 'BinaryValueCmdObject'], 'wide1pa', 60)
         for g in _groups(plain, 6) + [DATETIME]:
-            out.append(Inst(long_seq, dict(cls=g, length=100, seeds=2), budget=90,
-                            label="100x2," + "+".join(c.replace('CmdObject', '') for c in g)))
+            out.append(Inst(long_seq, dict(cls=g, length=100, seeds=2), budget=120, label="100x2," + _short(g)))
         for g in (['AnalogValueCmdObject', 'MultiStateValueCmdObject', 'CharacterStringValueCmdObject'],
                   ['BinaryOutputCmdObject', 'AccessDoorCmdObject'], DATETIME[:1]):
-            out.append(Inst(pa_element_write, dict(cls=g, first='p3'), budget=60,
-                            label="+".join(c.replace('CmdObject', '') for c in g)))
+            out.append(Inst(pa_element_write, dict(cls=g, first='p3'), budget=60, label=_short(g)))
     else:
         for g in _groups(plain, 2) + [DATETIME]:
             ops(g, 'wide1', 300, own_array=False)
         for c in every:
-            ops([c], 'deep3x', 600)
+            ops([c], 'deep3x' if c in REPRESENTATIVE else 'deep3y', 600)
         for c in REPRESENTATIVE:
-            ops([c], 'wide2', 600)
-            ops([c], 'deep3pa', 300)
-        for c in ['AnalogValueCmdObject', 'BinaryValueCmdObject', 'MultiStateValueCmdObject',
-                  'CharacterStringValueCmdObject', 'DateTimeValueCmdObject']:
+            if c != 'BinaryValueCmdObject':
+                ops([c], 'wide2', 600)
+            ops([c], 'deep2pa', 300)
+        ops(plain[:9], 'wide1pa', 300)
+        ops(plain[9:], 'wide1pa', 300)
+        for c in ['AnalogValueCmdObject', 'BinaryValueCmdObject', 'MultiStateValueCmdObject']:
             for lead in PRIO_SETS['p3']:
-                ops([c], [[lead, "01-", "pv"]] + [P3] * 3 + [["lo", "0", "pv"]], 600,
-                    tag="deep4/first=%s" % lead)
+                ops([c], [[lead, "01-", "pv"]] + [P3] * 3 + [["hi", "0", "pv"]], 600, tag="deep4/first=%s" % lead)
         for c in ['AnalogOutputCmdObject', 'BinaryOutputCmdObject', 'PositiveIntegerValueCmdObject']:
             for lead in PRIO_SETS['p2']:
-                for v in "01-":
+                for v in ("0-" if 'symint' in FAMILIES[FAMILY_OF[c]] else "01-"):
                     ops([c], [[lead, v, "pv"]] + [["p2", "01-", "pv"]] * 4, 600,
                         tag="deep5/first=%s%s" % (lead, v))
-        for c in ['LightingOutputCmdObject', 'BinaryOutputCmdObject', 'IntegerValueCmdObject']:
+        for c in ['LightingOutputCmdObject', 'IntegerValueCmdObject']:
             for lead in PRIO_SETS['p4']:
-                ops([c], [[lead, "0", "pv"]] + PLANS['wide3'][1:], 600, tag="wide3/first=%s" % lead)
+                ops([c], [[lead, "0", "pv"], ["wide", "1-", "pv"], ["wide", "0-", "pv"]], 600,
+                    tag="wide3/first=%s" % lead)
         for g in _groups(plain, 3) + [DATETIME]:
-            out.append(Inst(long_seq, dict(cls=g, length=100, seeds=16), budget=300,
-                            label="100x16," + "+".join(c.replace('CmdObject', '') for c in g)))
+            out.append(Inst(long_seq, dict(cls=g, length=100, seeds=16), budget=300, label="100x16," + _short(g)))
         for c in REPRESENTATIVE:
-            out.append(Inst(pa_element_write, dict(cls=c, first='wide'), budget=300, label=c))
+            out.append(Inst(pa_element_write, dict(cls=c, first='wide'), budget=300, label=_short([c])))
 
     # minimum on / off time
     for c in ('BinaryOutputCmdObject', 'BinaryValueCmdObject'):
@@ -634,14 +642,14 @@ def instances(tier):
             out.append(Inst(min_hold, dict(cls=c, prio=p), budget=60))
         if q:
             for p in MIN_PRIOS['m2']:
-                out.append(Inst(min_on_off, dict(cls=c, n=2, prios='m2', first=[p, None]), budget=90,
-                                label="%s,n=2,m2,first=%s" % (c, p)))
+                out.append(Inst(min_on_off, dict(cls=c, n=2, prios='m2', first=[p, None]), budget=120,
+                                label="%s,n=2,m2,first=%s" % (_short([c]), p)))
         else:
             for p in MIN_PRIOS['m4']:
                 out.append(Inst(min_on_off, dict(cls=c, n=2, prios='m4', first=[p, None]), budget=600,
-                                label="%s,n=2,m4,first=%s" % (c, p)))
+                                label="%s,n=2,m4,first=%s" % (_short([c]), p)))
             for p in MIN_PRIOS['m2']:
                 for v in '10-':
                     out.append(Inst(min_on_off, dict(cls=c, n=3, prios='m2', first=[p, v]), budget=900,
-                                    label="%s,n=3,m2,first=%s%s" % (c, p, v)))
+                                    label="%s,n=3,m2,first=%s%s" % (_short([c]), p, v)))
     return out
